@@ -36,6 +36,27 @@ claim("C14", "exploration",
       "Trusts the harness parsers (documented writer format) and the reference sub-grouping rule.",
       "proptest generation; oracle = invariants over the report + differential across the four output formats", "DESIGN.md 4 C14")
 
+claim("C02", "exploration",
+      "Generated end-to-end scenarios (hostile names incl. leading/trailing white space of several kinds, newlines, quotes, non-UTF-8; hard-link sets; symlinks reported with -S; 1-3 roots; decoy files named like trimmed/escaped variants of group members) x group options x text/JSON report x remove/link/link --soft/dedupe/move with -n, priorities, keep/drop globs, isolate, -H, and move targets on the same fs, inside the tree, across devices. Oracle on full inventories (lstat + bytes) before/after: no content lost, max(1,n) sub-groups untouched, nothing outside the report changed, no stray paths, original paths readable (link ops), moved bytes under DIR.",
+      "Two open known findings (symlink under another isolate root retained as replica of its own target). Reflink success is unreachable on the sandbox file systems (refusal path only). Files carry old mtimes so the staleness guard is not in play (C04's business).",
+      "proptest-generated scenarios driving the real binary; oracle = invariants over before/after inventories of the file system", "DESIGN.md 4 C02")
+claim("C08", "exploration",
+      "Generated groups (metacharacter/non-ASCII names, hard-link subsets, roots, controlled tied timestamps) x priority lists over all 12 values, keep/drop globs from actual names, n explicit or inherited, isolate/-H explicit or inherited through text and JSON headers; the set of files a real run changes must equal the set computed by the reference keep/drop rule; separate clauses for keep patterns, drop patterns and sub-group atomicity.",
+      "Reference rule written from --help/README; sub-groups whose members disagree on a sort key skip the exact comparison (undocumented aggregation); glob semantics from the reference matcher.",
+      "proptest generation; oracle = reference model of the keep/drop rule compared with inventory diffs", "DESIGN.md 4 C08")
+claim("C11", "exploration",
+      "Generated scenarios as C02 x remove/link/link --soft/move: three dry runs with different rayon pool sizes must print identical scripts (modulo temp suffix) in report order; operations parsed from the script must equal the changes of a real run (set, kind, summary counts and bytes); for remove/link/link --soft the script is executed by bash on an identically rebuilt tree and the resulting tree must equal the real run's (paths, types, bytes, symlink targets, hard-link partition).",
+      "Open known findings for --symbolic-links combined with --isolate / cross-device move. `dedupe` not compared (reflink unsupported here). atime-based priorities replaced (reads between runs change atimes).",
+      "proptest generation; differential oracle: dry-run script vs real run vs bash execution of the script", "DESIGN.md 4 C11")
+claim("C18", "exploration",
+      "Generated scenarios x `move DIR` with DIR outside/inside the scanned tree, on tmpfs->ext4 (EXDEV copy fallback) and on a loop-mounted ext4 that fclones sees as another mount (copy path), absolute or relative, with obstacles planted from a dry run (colliding file, directory at destination, file at parent, dangling symlink). Inventory oracle: pre-existing entries under DIR untouched, vanished sources complete at DIR/<abs path> which did not exist before, injective count, unmoved sources untouched with a warning.",
+      "Injected rename/copy failures are C05's fault enumeration. Loop mount needs root; absent => those cases fall back to the plain ext4 target.",
+      "proptest generation; oracle = invariants over before/after inventories", "DESIGN.md 4 C18")
+claim("C20", "exploration",
+      "Generated scenarios x all five operations x subsets of the intended files locked by the harness through open-file-description write locks on four byte ranges (whole file, beyond EOF, first byte, tail) x --no-lock on/off x same-mount and cross-mount move targets. Locked files must be untouched with a warning; unlocked intended files must be processed; with --no-lock everything intended is processed.",
+      "OFD locks of the harness conflict with fclones' F_SETLK like a foreign process' lock; intention learnt from a dry run.",
+      "proptest generation; oracle = inventory comparison against the dry-run intention under foreign locks", "DESIGN.md 4 C20")
+
 NOT_YET = "check not built yet in this round (planned: see DESIGN.md section 4); not claimed until it exists"
 
 hooks_commits = subprocess.run(["git","-C","/repo","log","--format=%H %s"],capture_output=True,text=True).stdout.splitlines()
